@@ -33,7 +33,8 @@ def classOutcome (name : String) : Out :=
   | "oversized-batch" => batchWrite ds (List.replicate 101 (16, 2))
   | "search-wrong-dimension" => search ds 7 3 20 32
   | "update-absent-id" | "remove-absent-id" | "insert-existing-id" | "remove-twice"
-  | "insert-oversized-metadata" | "update-oversized-metadata" => applyItem false true
+  | "insert-oversized-metadata" | "update-oversized-metadata"
+  | "insert-oversized-multibyte-key" | "update-oversized-multibyte-value" => applyItem false true
   -- client-supplied levels are overwritten by the handler's own draw (here: 1) before the batch is proposed
   | "batch-insert-client-level" | "partition-batch-insert-client-level" =>
     match batchWrite ds [(16, 2), (16, 2), (16, 2)] with
